@@ -94,15 +94,18 @@ def algs():
     from cola.linalg.inverse.pinv import LSTSQ
     from cola.linalg.svd.svd import DenseSVD
     it = dict(max_iters=4)
+    # "Auto(tol)": an Auto object that carries an option, as in the docstrings' `alg=Auto(tol=1e-4)` (every algorithm the automatic
+    # choice can resolve to accepts `tol`)
+    at = lambda: Auto(tol=1e-4)  # noqa
     return {
-        "inv": {"Auto": Auto(), "CG": CG(**it), "GMRES": GMRES(**it), "LU": LU(), "Cholesky": Cholesky()},
-        "pinv": {"Auto": Auto(), "CG": CG(**it), "LSTSQ": LSTSQ()},
-        "log_alg": {"Auto": Auto(), "Cholesky": Cholesky(), "LU": LU(), "Lanczos": Lanczos(**it), "Arnoldi": Arnoldi(**it)},
-        "trace_alg": {"Auto": Auto(), "Exact": Exact(), "Hutch": Hutch(max_iters=2, key=1)},
-        "unary": {"Auto": Auto(), "Eig": Eig(), "Eigh": Eigh(), "Lanczos": Lanczos(**it), "Arnoldi": Arnoldi(**it)},
-        "eig": {"Auto": Auto(), "Eig": Eig(), "Eigh": Eigh(), "Arnoldi": Arnoldi(**it), "Lanczos": Lanczos(**it),
+        "inv": {"Auto": Auto(), "Auto(tol)": at(), "CG": CG(**it), "GMRES": GMRES(**it), "LU": LU(), "Cholesky": Cholesky()},
+        "pinv": {"Auto": Auto(), "Auto(tol)": at(), "CG": CG(**it), "LSTSQ": LSTSQ()},
+        "log_alg": {"Auto": Auto(), "Auto(tol)": at(), "Cholesky": Cholesky(), "LU": LU(), "Lanczos": Lanczos(**it), "Arnoldi": Arnoldi(**it)},
+        "trace_alg": {"Auto": Auto(), "Auto(tol)": at(), "Exact": Exact(), "Hutch": Hutch(max_iters=2, key=1)},
+        "unary": {"Auto": Auto(), "Auto(tol)": at(), "Eig": Eig(), "Eigh": Eigh(), "Lanczos": Lanczos(**it), "Arnoldi": Arnoldi(**it)},
+        "eig": {"Auto": Auto(), "Auto(tol)": at(), "Eig": Eig(), "Eigh": Eigh(), "Arnoldi": Arnoldi(**it), "Lanczos": Lanczos(**it),
                 "LOBPCG": LOBPCG(max_iters=2), "PowerIteration": PowerIteration(max_iter=3)},
-        "svd": {"Auto": Auto(), "DenseSVD": DenseSVD(), "Lanczos": Lanczos(**it), "LOBPCG": LOBPCG(max_iters=2)},
+        "svd": {"Auto": Auto(), "Auto(tol)": at(), "DenseSVD": DenseSVD(), "Lanczos": Lanczos(**it), "LOBPCG": LOBPCG(max_iters=2)},
     }
 
 
@@ -141,26 +144,26 @@ def _lattice(config):
                 for sc in ("int", "float", "complex", "np0d"):
                     for fn in ("mul", "rmul", "div"):
                         yield dict(base, fn=fn, scalar=sc)
-                for a in [OMIT, "Auto", "CG", "GMRES", "LU", "Cholesky"]:
+                for a in [OMIT, "Auto", "Auto(tol)", "CG", "GMRES", "LU", "Cholesky"]:
                     yield dict(base, fn="inv", alg=a)
                     yield dict(base, fn="solve", alg=a)
-                for a in [OMIT, "Auto", "CG", "LSTSQ"]:
+                for a in [OMIT, "Auto", "Auto(tol)", "CG", "LSTSQ"]:
                     yield dict(base, fn="pinv", alg=a)
-                for la in [OMIT, "Auto", "Cholesky", "LU", "Lanczos", "Arnoldi"]:
-                    for ta in [OMIT, "Auto", "Exact", "Hutch"]:
+                for la in [OMIT, "Auto", "Auto(tol)", "Cholesky", "LU", "Lanczos", "Arnoldi"]:
+                    for ta in [OMIT, "Auto", "Auto(tol)", "Exact", "Hutch"]:
                         if la == OMIT and ta != OMIT:
                             continue  # positional API: trace_alg cannot be given without log_alg ... keyword form below
                         yield dict(base, fn="slogdet", log_alg=la, trace_alg=ta)
                         yield dict(base, fn="logdet", log_alg=la, trace_alg=ta)
                     yield dict(base, fn="slogdet_kw", log_alg=la, trace_alg="Exact")
-                for a in [OMIT, "Auto", "Exact", "Hutch"]:
+                for a in [OMIT, "Auto", "Auto(tol)", "Exact", "Hutch"]:
                     for kk in (0, 1, -1):
                         yield dict(base, fn="diag", alg=a, k=kk)
                     yield dict(base, fn="trace", alg=a)
                 for fn in ("exp", "log", "sqrt", "isqrt", "pow", "pow_int", "pow_neg1", "apply_unary"):
-                    for a in [OMIT, "Auto", "Eig", "Eigh", "Lanczos", "Arnoldi"]:
+                    for a in [OMIT, "Auto", "Auto(tol)", "Eig", "Eigh", "Lanczos", "Arnoldi"]:
                         yield dict(base, fn=fn, alg=a)
-                for a in [OMIT, "Auto", "Eig", "Eigh", "Arnoldi", "Lanczos", "LOBPCG", "PowerIteration"]:
+                for a in [OMIT, "Auto", "Auto(tol)", "Eig", "Eigh", "Arnoldi", "Lanczos", "LOBPCG", "PowerIteration"]:
                     for which in ("LM", "SM", OMIT):
                         for kk in (1, 2):
                             if a != OMIT and which == OMIT:
@@ -168,7 +171,7 @@ def _lattice(config):
                             yield dict(base, fn="eig", alg=a, which=which, k=kk)
                     yield dict(base, fn="eigmax", alg=a)
                     yield dict(base, fn="eigmin", alg=a)
-                for a in [OMIT, "Auto", "DenseSVD", "Lanczos", "LOBPCG"]:
+                for a in [OMIT, "Auto", "Auto(tol)", "DenseSVD", "Lanczos", "LOBPCG"]:
                     yield dict(base, fn="svd", alg=a, k=2)
         # binary combinators: all ordered pairs of kinds x annotation of each side
         for k1, k2 in itertools.product(kinds, kinds):
@@ -186,9 +189,9 @@ def _lattice(config):
             base = {"kind": k, "annot": an, "dt": "f8", "shape": "tall"}
             for fn in ("transpose", "adjoint", "to_dense"):
                 yield dict(base, fn=fn)
-            for a in [OMIT, "Auto", "CG", "LSTSQ"]:
+            for a in [OMIT, "Auto", "Auto(tol)", "CG", "LSTSQ"]:
                 yield dict(base, fn="pinv", alg=a)
-            for a in [OMIT, "Auto", "DenseSVD", "Lanczos", "LOBPCG"]:
+            for a in [OMIT, "Auto", "Auto(tol)", "DenseSVD", "Lanczos", "LOBPCG"]:
                 yield dict(base, fn="svd", alg=a, k=2)
     for k1, k2 in itertools.product(rk, rk):
         for fn in ("add", "kron", "dotT"):
@@ -310,7 +313,7 @@ def gen(tier, rng, shard, nshards):
     idx, tot = (shard, half) if shard < half else (shard - half, nshards - half)
     j = 0
     for fn in ("inv", "solve", "pinv", "slogdet", "diag", "trace", "exp", "log", "sqrt", "pow", "pow_neg1", "apply_unary", "eig", "eigmax", "eigmin", "svd"):
-        for a in (OMIT, "Auto"):
+        for a in (OMIT, "Auto", "Auto(tol)"):
             for annot in (None, "PSD", "SelfAdjoint"):
                 j += 1
                 if j % tot == idx:
